@@ -365,7 +365,7 @@ pub fn plan(tier: &str) -> u64 {
     let mc = 3 * ext_variants();
     match tier {
         "thorough" => mc * 257 + 64,
-        "selfcheck" => 24,
+        "selfcheck" => 20_000,
         _ => mc * 4 + 8,
     }
 }
@@ -375,7 +375,7 @@ pub fn gen(seed: u64, run: u64, tier: &str) -> Vec<Step> {
     let keys: Vec<usize> = if tier == "thorough" { (0..=256).collect() } else { KEYS_QUICK.to_vec() };
     let mc_runs = 3 * ext_variants() * keys.len() as u64;
     let mut steps = Vec::new();
-    if run < mc_runs && tier != "selfcheck" || tier == "selfcheck" && run < 16 {
+    if run < mc_runs && tier != "selfcheck" || tier == "selfcheck" && run % 3 != 2 {
         let ev = run % ext_variants();
         let aaguid_len = AAGUIDS[(run / ext_variants() % 3) as usize];
         let key_len = keys[(run / ext_variants() / 3) as usize % keys.len()];
